@@ -242,6 +242,17 @@ func drawC18(t *rapid.T) C18Case {
 	if rapid.IntRange(0, 3).Draw(t, "sametoken") == 0 {
 		c.T1 = c.T2
 	}
+	if rapid.IntRange(0, 2).Draw(t, "t1.clash") == 2 {
+		// the token where the snapshot is taken uses the authorizer's predicate names with other
+		// term types: evaluating the original there may fail inside a rule (the save must then be refused too)
+		for _, sig := range sc.Schema.Preds {
+			f := m.Pred{Name: sig.Name}
+			for range sig.Cols {
+				f.Terms = append(f.Terms, m.Str(rapid.SampledFrom([]string{"a", "zeta"}).Draw(t, "t1.clashv")))
+			}
+			c.T1.Blocks[0].Facts = bridge.DedupFacts(append(append([]m.Pred{}, c.T1.Blocks[0].Facts...), f))
+		}
+	}
 	closure := gen.AuthClosure(sc.Token, sc.Authz)
 	for i := 0; i < 3; i++ {
 		c.Queries = append(c.Queries, sc.Schema.DrawPanelQuery(t, closure))
